@@ -104,8 +104,8 @@ impl Property for C26 {
         "bytes appended after the declared length are outside the statement and not checked",
         "a loaded key file may hold more keys than history+1 (stored with a larger history); only cookies issued after the load are judged",
     ];
-    const QUICK_CASES: u32 = 40_000;
-    const THOROUGH_CASES: u32 = 1_600_000;
+    const QUICK_CASES: u32 = 120_000;
+    const THOROUGH_CASES: u32 = 2_400_000;
 
     fn strategy(tier: Tier) -> BoxedStrategy<Case> {
         (0u8..=4, start(), prop::collection::vec(op(), 0..tier.pick(40, 80)))
